@@ -989,12 +989,32 @@ func (c *hctx) callValue(x *hvar, v *ast.CallExpr, pre *[]hbind) ([]string, []*h
 	if t.stateful {
 		s += " " + c.cbState[x].name
 	}
-	for _, a := range v.Args {
+	var objPats []string
+	for i, a := range v.Args {
 		y, yt := c.expr(a, pre)
 		if yt.k == "func" {
 			c.lostAt(a, "function argument of a function value")
 		}
+		if len(t.objParamTypes()) > 0 && t.params[i].k == "obj" {
+			ov := c.objVar(a)
+			if ov == nil {
+				c.lostAt(a, "object %s as an argument (it must be held in a variable or a field of the receiver)", src(a))
+			}
+			if ov.role == "field" {
+				c.recvCheck(pre)
+			}
+			objPats = append(objPats, ov.name)
+		}
 		s += " " + paren(y)
+	}
+	if len(objPats) > 0 {
+		// the callback is handed objects: monadic, the objects rebound from what it hands back
+		var ts []string
+		for range t.res {
+			ts = append(ts, c.tmp())
+		}
+		*pre = append(*pre, hbind{pat: tuple(append(append([]string{}, ts...), objPats...)), m: tRaw{s}, effect: true})
+		return ts, t.res
 	}
 	if !t.stateful && t.shape == nil && len(t.res) == 1 {
 		return []string{"(" + s + ")"}, t.res // a pure function argument
